@@ -339,6 +339,23 @@ pub fn c01_families(tier: &str) -> Vec<SeqSpec> {
         )
         .flush(),
     );
+    // keys longer than a WAL block (40000 bytes): every WAL record, table index entry and version
+    // edit that carries such a key spans several 32 KiB log blocks / is larger than any block limit
+    v.push(
+        spec(
+            "F-hugekeys",
+            &["T300", "Dn"],
+            vec![vec![b'c'; 40_000], [vec![b'c'; 40_000], b"d".to_vec()].concat(), b"e".to_vec()],
+            {
+                let mut a = a1();
+                a.extend(reopen_ops(2));
+                a
+            },
+            if t { 4 } else { 3 },
+            READS,
+        )
+        .flush(),
+    );
     // a block cache of two entries: every block read evicts another block
     v.push(spec("F-flush/T300c", &["T300c"], k3s(), a1(), if t { 6 } else { 4 }, READS).flush());
     // gap keys + a filter that lets every lookup through (see `k3g`)
